@@ -99,6 +99,18 @@ from .analyzer import (
 )
 
 
+def _free_backup_name(path: str) -> str:
+    """First of path.bak, path.bak.1, path.bak.2, ... that does not exist yet.
+
+    A backup must never replace an earlier backup: that would lose the only other copy.
+    """
+    candidate, n = path + '.bak', 0
+    while os.path.exists(candidate):
+        n += 1
+        candidate = f"{path}.bak.{n}"
+    return candidate
+
+
 def _migrate_csv_to_rules(csv_file: str, config_dir: str, backup: bool = True) -> bool:
     """
     Migrate merchant_categories.csv to merchants.rules format.
@@ -120,8 +132,13 @@ def _migrate_csv_to_rules(csv_file: str, config_dir: str, backup: bool = True) -
         csv_rules = load_merchant_rules(csv_file)
         content = csv_to_merchants_content(csv_rules)
 
-        # Write new file
+        # Write new file (a merchants.rules that is already there may hold rules the user
+        # wrote by hand: keep it under a backup name instead of overwriting it)
         new_file = os.path.join(config_dir, 'merchants.rules')
+        if os.path.exists(new_file):
+            kept = _free_backup_name(new_file)
+            shutil.move(new_file, kept)
+            print(f"  {C.YELLOW}→{C.RESET} Kept existing merchants.rules as {os.path.basename(kept)}")
         with open(new_file, 'w', encoding='utf-8') as f:
             f.write(content)
         print(f"  {C.GREEN}✓{C.RESET} Created: config/merchants.rules")
@@ -142,8 +159,9 @@ def _migrate_csv_to_rules(csv_file: str, config_dir: str, backup: bool = True) -
         # Retire the old file last: until settings.yaml points at the new rules file the
         # CSV is what the budget classifies with, so it must stay in place until then
         if backup and os.path.exists(csv_file):
-            shutil.move(csv_file, csv_file + '.bak')
-            print(f"  {C.GREEN}✓{C.RESET} Backed up: merchant_categories.csv → .bak")
+            backup_file = _free_backup_name(csv_file)
+            shutil.move(csv_file, backup_file)
+            print(f"  {C.GREEN}✓{C.RESET} Backed up: merchant_categories.csv → {os.path.basename(backup_file)}")
 
         return True
     except Exception as e:
